@@ -210,7 +210,7 @@ def judge(rows_by_id, res, cats, report, selftest=False):
             report("drift", "native-accepts/%s" % x["class"], "the model expects the native verifier to reject class %s (C02/C03's statement)" % x["class"], payload)
         if exp["expect"] == "accept" and not x["native"]:
             report("drift", "native-rejects-honest", "honest inner proof rejected natively: %s" % x["native_detail"], payload)
-        if not x["native"] and exp["first"] and x["changed"] and strong:
+        if not x["native"] and exp["first"] and x["changed"] and strong and s["cfg"]["pow"] >= 16:
             k = kind_of_detail(x["native_detail"])
             if k not in {kind_of_id(i) for i in exp["first"]}:
                 st["first_mismatch"].setdefault(x["class"], k)
